@@ -102,6 +102,9 @@ type vp16Stream struct {
 }
 
 type vp16Env struct {
+	refuse      bool  // the server answers "na" to the requested channel
+	pipeErr     error // what the (stubbed) data pipe reports for the next local connection
+	recvBuffer  int   // MaxReceiveBuffer handed to smux.Client
 	sessions    []*vp16Session
 	streams     []*vp16Stream
 	directDials int
@@ -126,6 +129,7 @@ func vp16SmuxClient(conn io.ReadWriteCloser, config *smux.Config) (*smux.Session
 		return nil, errors.New("max frame size must be in 1..65535")
 	}
 	s := &vp16Session{sess: new(smux.Session), carrier: conn}
+	vp16E.recvBuffer = config.MaxReceiveBuffer
 	vp16E.sessions = append(vp16E.sessions, s)
 	return s.sess, nil
 }
@@ -156,7 +160,11 @@ func vp16OpenStream(sess *smux.Session) (*smux.Stream, error) {
 	s.opens++
 	st := &vp16Stream{st: new(smux.Stream)}
 	// the server accepts the requested channel
-	st.in = append(vp16Delim("/multistream/1.0.0"), vp16Delim("/"+vp16E.channel)...)
+	if vp16E.refuse {
+		st.in = append(vp16Delim("/multistream/1.0.0"), vp16Delim("na")...)
+	} else {
+		st.in = append(vp16Delim("/multistream/1.0.0"), vp16Delim("/"+vp16E.channel)...)
+	}
 	vp16E.streams = append(vp16E.streams, st)
 	return st.st, nil
 }
@@ -185,6 +193,10 @@ func vp16StreamClose(st *smux.Stream) error { vp16FindStream(st).closed++; retur
 
 func vp16PipeData(down io.ReadWriteCloser, up io.ReadWriteCloser) error {
 	vp16E.pipes++
+	if e := vp16E.pipeErr; e != nil {
+		vp16E.pipeErr = nil
+		return e
+	}
 	if _, isLocal := up.(interface{ Unwrap() net.Conn }); isLocal {
 		vp16E.pipedDirect++
 	}
@@ -246,8 +258,15 @@ func VP_C16_Policy() {
 		}
 		before := len(order)
 		pipesBefore, directBefore, dialsBefore := vp16E.pipes, vp16E.pipedDirect, vp16E.directDials
+		streamsBefore := len(vp16E.streams)
+		vp16E.refuse = vp.Param("refusals") == 1 && vp.Bool("channel-refused")
+		refused := vp16E.refuse
+		if vp.Param("pipeerrors") == 1 && vp.Bool("pipe-fails") {
+			vp16E.pipeErr = errors.New("read tcp: connection reset by peer") // this logical connection ends abortively
+		}
 		local := &vp16Local{}
 		l.HandleConnection(local)
+		vp16E.refuse = false
 
 		tried := order[before:]
 		if hasForward {
@@ -260,8 +279,27 @@ func VP_C16_Policy() {
 			vp.Reach("direct")
 			continue
 		}
+		// a refused channel: nothing is piped, and the stream opened for the attempt is closed again
+		checkRefused := func() bool {
+			if !refused || len(vp16E.streams) == streamsBefore {
+				return false
+			}
+			vp.Assert(vp16E.pipes == pipesBefore, "refused-channel-serves-nothing")
+			vp.Assert(vp16E.streams[len(vp16E.streams)-1].closed > 0, "stream-of-a-refused-channel-is-closed")
+			vp.Assert(local.closed > 0, "local-connection-closed-after-handling")
+			return true
+		}
+		// one logical connection ending abortively must not take the shared session down
+		for _, s := range vp16E.sessions {
+			if !s.lost {
+				vp.Assert(s.closed == 0, "shared-session-survives-the-end-of-a-logical-connection")
+			}
+		}
 		if alive {
 			vp.Assert(len(tried) == 0, "live-session-is-reused-without-new-physical-connection")
+			if checkRefused() {
+				continue
+			}
 			vp.Assert(vp16E.pipes == pipesBefore+1, "local-connection-served-over-the-shared-session")
 			vp.Reach("reused")
 			continue
@@ -287,6 +325,10 @@ func VP_C16_Policy() {
 			physical++
 			alive = true
 			vp.Assert(len(vp16E.sessions) == physical, "one-physical-session-per-successful-connect")
+			vp.Assert(vp16E.recvBuffer >= 4<<20, "multiplexer-receive-buffer-at-least-4MiB")
+			if checkRefused() {
+				continue
+			}
 			vp.Assert(vp16E.pipes == pipesBefore+1, "local-connection-served-after-connecting")
 			vp.Reach("connected")
 		} else {
@@ -295,4 +337,37 @@ func VP_C16_Policy() {
 		}
 		vp.Assert(local.closed > 0, "local-connection-closed-after-handling")
 	}
+}
+
+// VP_C16_Concurrent: two local connections arrive while no session exists; the first upstream's Connect yields in the
+// middle (a dial takes time), so the second local connection can enter Upstreams.Connect meanwhile - in every schedule
+// exactly one physical session is created and both are served over it.
+type vp16SlowUpstream struct{ vp16Upstream }
+
+func (u *vp16SlowUpstream) Connect(manager cert.TlsConfig, mustSecure bool) error {
+	vp.Yield()
+	err := u.vp16Upstream.Connect(manager, mustSecure)
+	vp.Yield()
+	return err
+}
+
+func VP_C16_Concurrent() {
+	vp16E = &vp16Env{channel: "ssh"}
+	var order []int
+	u := &vp16SlowUpstream{vp16Upstream{id: 0, outcome: oOK, log: &order}}
+	ul := &upstream.Upstreams{Data: []upstream.Upstream{u}}
+	l := &AbstractListener{Upstreams: ul, Config: vp16Config{}}
+	l.Name = "ssh"
+	l.Address = addr.MustParseAddress("tcp://127.0.0.1:2222")
+	n := vp.Param("locals")
+	locals := make([]*vp16Local, n)
+	for i := range locals {
+		locals[i] = &vp16Local{}
+		go l.HandleConnection(locals[i])
+	}
+	left := vp.Quiesce()
+	vp.Assert(left == 0, "every-local-connection-is-handled")
+	vp.Assert(u.connects == 1 && len(vp16E.sessions) == 1, "concurrent-local-connections-share-one-physical-session")
+	vp.Assert(vp16E.pipes == n, "every-concurrent-local-connection-is-served")
+	vp.Reach("shared")
 }
